@@ -38,7 +38,7 @@ fn hybrid_case(log_alphabet_size: u32) {
     let bytes = w.bytes();
     let mut bs = Bitstream::new(&bytes[..16]);
     let _ = bs.peek_bits(0); // the caller (symbol decoder) has refilled the bit buffer
-    let got = cv::read_uint_prefilled(&mut bs, &conf, token);
+    let got = cv::read_uint_prefilled(&mut bs, &conf, token).unwrap();
     assert!(got == value);
     assert!(bs.num_read_bits() == nbits as usize);
     assert!(nbits == hybrid_nbits(&sc, token));
@@ -86,4 +86,50 @@ pub fn c04_add_log2_ceil() {
     assert!(cv::add_log2_ceil(x) == ceil_log2_plus1(x));
     kani::cover!(x == u32::MAX);
     kani::cover!(x == 0);
+}
+
+// @prop C11 C04
+// @tier quick
+// @unit jxl_coding::DecoderInner::read_uint_prefilled (with IntegerConfig::parse for the configuration)
+// @sym every configuration for log_alphabet_size 15, every encodable u32 value, input truncated to 0..=4 bytes after the token
+// @bound complete for that alphabet size; up to 4 bytes of extra bits present
+// @oblig when fewer bits are left than the token's extra-bit count, the read reports UnexpectedEof (never a value built from missing bits - finding F05); otherwise it returns the value
+#[kani::proof]
+#[kani::unwind(34)]
+pub fn c11_hybrid_uint_truncated_extra_bits_is_eof() {
+    let cfg_bytes: [u8; 2] = kani::any();
+    let mut cbs = Bitstream::new(&cfg_bytes[..]);
+    let conf = match cv::parse_integer_config(&mut cbs, 15) {
+        Ok(c) => c,
+        Err(e) => {
+            core::mem::forget(e);
+            return;
+        }
+    };
+    let sc = HybridConf { split_exponent: conf.split_exponent, msb_in_token: conf.msb_in_token, lsb_in_token: conf.lsb_in_token };
+    let value: u32 = kani::any();
+    let (token, nbits, bits) = hybrid_encode(&sc, value);
+    kani::assume((token as u64) < (1u64 << 15));
+    let mut w = BitWriter::new();
+    w.put(bits as u64, nbits as usize);
+    w.put(kani::any::<u64>(), 40);
+    let bytes = w.bytes();
+    let len: usize = kani::any();
+    kani::assume(len <= 4);
+    let mut bs = Bitstream::new(&bytes[..len]);
+    let _ = bs.peek_bits(0);
+    let r = cv::read_uint_prefilled(&mut bs, &conf, token);
+    if (nbits as usize) > 8 * len {
+        match r {
+            Ok(_) => panic!("a value was produced from bits that are not there"),
+            Err(e) => {
+                assert!(e.unexpected_eof());
+                core::mem::forget(e);
+            }
+        }
+        kani::cover!(len > 0, "truncated inside the extra bits");
+    } else {
+        assert!(r.unwrap() == value);
+        kani::cover!(nbits > 0, "complete extra bits");
+    }
 }
